@@ -40,7 +40,8 @@ From IndModel Require Export Base Template.
 From IndGen Require Import Constants.
 From Coq Require String.
 Require IndModel.Padded.       (* only for [conv_align], the cross-check with C12's model *)
-Require IndModel.Fmt.          (* only for [formatter_call]: C15's model of src/format.rs *)
+Require IndModel.Fmt IndModel.Keys IndModel.TabsEnv.   (* only for [formatter_call]: C15's model of
+   src/format.rs, C11's key dispatch, and the formatter record C16 builds from the former *)
 Open Scope N_scope.
 
 (** ** sites *)
@@ -331,7 +332,11 @@ Definition expanded_site (st : style) (v : tes_variant) (text_has_tab : bool) : 
         state.rs:55,65 (finish / abandon with message), style.rs:503,531,589,632 (template literals);
       - the literal NoTabs("") of ProgressState::new, state.rs:271-272;
       - set_tab_width, state.rs:397-409: neither the variant nor the text changes.
-    This list is a reading of the source; the statement over all histories of bar operations is
+    This list is a reading of the source, GUARDED by the check: c14.rs [tes_site_inventory] re-counts
+    every `TabExpandedString::NoTabs(` / `::WithTabs {` / `::new(` / `Self::NoTabs(` / `Self::WithTabs {`
+    outside the test modules of /repo/src per (file, fn) on every run and fails with class
+    `unaudited-tabexpandedstring-site` on a site that is not listed.  The statement over all
+    histories of bar operations is
     C16's invariant (props/C16.v, C16_inv: `tes_ok (NoTabs s) := has_tab s = false`). *)
 Inductive tes_made : tes_variant -> bool -> Prop :=
 | made_new (b : bool) : tes_made (tes_new b) b
@@ -353,23 +358,6 @@ Module KeyNames.
   Definition msg := str_codes "msg".
   Definition prefix := str_codes "prefix".
   Definition per_sec := str_codes "per_sec".
-  Definition human_pos := str_codes "human_pos".
-  Definition human_len := str_codes "human_len".
-  Definition bytes := str_codes "bytes".
-  Definition total_bytes := str_codes "total_bytes".
-  Definition decimal_bytes := str_codes "decimal_bytes".
-  Definition decimal_total_bytes := str_codes "decimal_total_bytes".
-  Definition binary_bytes := str_codes "binary_bytes".
-  Definition binary_total_bytes := str_codes "binary_total_bytes".
-  Definition elapsed_precise := str_codes "elapsed_precise".
-  Definition elapsed := str_codes "elapsed".
-  Definition bytes_per_sec := str_codes "bytes_per_sec".
-  Definition decimal_bytes_per_sec := str_codes "decimal_bytes_per_sec".
-  Definition binary_bytes_per_sec := str_codes "binary_bytes_per_sec".
-  Definition eta_precise := str_codes "eta_precise".
-  Definition eta := str_codes "eta".
-  Definition duration_precise := str_codes "duration_precise".
-  Definition duration := str_codes "duration".
 End KeyNames.
 Definition key_is (k c : list N) : bool := list_eqb N.eqb k c.
 
@@ -453,46 +441,48 @@ Definition render_outcome (st : style) (sn : snapshot) (tw : N) (O : oracles) : 
     [render_outcome] treats `buf.write_fmt(format_args!("{}", HumanXxx(arg))).unwrap()` as total:
     the partial operations INSIDE those Display impls are not sites of this model but of C15's
     (Fmt.v: usize underflow of `len - idx - 1`, Duration overflow of `cur + cur / 2`, `UNITS[idx]`,
-    `UNITS.len() - 1`, `prefixes[prefix - 1]`).  [formatter_call] says which formatter an arm calls
-    on which argument, as a case of C15's [Fmt.fmt_model]; the arguments are whatever the
-    ProgressState getters return - ANY u64, ANY Duration (seconds, nanoseconds) incl. the
-    saturated eta() = u64::MAX s and duration() = Duration::MAX, ANY f64 bit pattern.
-    `{pos}` `{len}` (core's u64 Display) and `{percent}` `{percent_precise}` (core's f32 Display)
-    do not go through src/format.rs. *)
-Record times := mktimes {
-  tm_elapsed : N * N;        (* state.elapsed(): (as_secs(), subsec_nanos()) *)
-  tm_eta : N * N;            (* state.eta() *)
-  tm_duration : N * N;       (* state.duration() *)
-  tm_per_sec : N;            (* state.per_sec(): the f64 bit pattern *)
-  tm_per_sec_u64 : N }.      (* state.per_sec() as u64 (saturating cast) *)
+    `UNITS.len() - 1`, `prefixes[prefix - 1]`).  Which formatter an arm calls on which getter is
+    NOT transcribed a second time here: it is C11's dispatch [Keys.builtin_value] (Keys.v, tied to
+    the code by bin c11 key by key), instantiated with the formatter record
+    [TabsEnv.fmt_formatters] that wraps Fmt.v's models (and hides a model panic as the empty text,
+    [TabsEnv.ok_or_nil]).  [formatter_call] only NAMES, for each built-in key, the case of
+    [Fmt.fmt_model] that dispatch evaluates and the literal suffix it appends; the agreement with
+    Keys.builtin_value is proved (BuilderProofs.formatter_call_agrees), so a wrong entry here does
+    not survive.  Keys without an entry ([None]) produce their text without any formatter of
+    src/format.rs (BuilderProofs.formatter_call_none).  Durations are nanoseconds in Keys.v. *)
+Definition formatter_call (s : Keys.snapshot) (b : Keys.bkey) (width : option N)
+  : option (Fmt.fcase * list N) :=
+  let pos := Keys.s_pos s in
+  let len := match Keys.s_len s with Some l => l | None => pos end in
+  let o := Keys.s_obs s in
+  let dur (d : N) := (d / TabsEnv.NS, d mod TabsEnv.NS) in
+  let rate := Keys.f64_to_u64 (Keys.o_per_sec o) in                       (* per_sec() as u64 *)
+  match b with
+  | Keys.KHumanPos => Some (Fmt.CCount pos, [])
+  | Keys.KHumanLen => Some (Fmt.CCount len, [])
+  | Keys.KBytes => Some (Fmt.CBytes 0 pos, [])
+  | Keys.KTotalBytes => Some (Fmt.CBytes 0 len, [])
+  | Keys.KDecimalBytes => Some (Fmt.CBytes 1 pos, [])
+  | Keys.KDecimalTotalBytes => Some (Fmt.CBytes 1 len, [])
+  | Keys.KBinaryBytes => Some (Fmt.CBytes 2 pos, [])
+  | Keys.KBinaryTotalBytes => Some (Fmt.CBytes 2 len, [])
+  | Keys.KElapsedPrecise => Some (Fmt.CFDur (fst (dur (Keys.o_elapsed o))) (snd (dur (Keys.o_elapsed o))), [])
+  | Keys.KElapsed => Some (Fmt.CHDur (fst (dur (Keys.o_elapsed o))) (snd (dur (Keys.o_elapsed o))) true, [])
+  | Keys.KPerSec => Some (Fmt.CFloat width (Keys.o_per_sec o), Keys.per_s)
+  | Keys.KBytesPerSec => Some (Fmt.CBytes 0 rate, Keys.per_s)
+  | Keys.KDecimalBytesPerSec => Some (Fmt.CBytes 1 rate, Keys.per_s)
+  | Keys.KBinaryBytesPerSec => Some (Fmt.CBytes 2 rate, Keys.per_s)
+  | Keys.KEtaPrecise => Some (Fmt.CFDur (fst (dur (Keys.o_eta o))) (snd (dur (Keys.o_eta o))), [])
+  | Keys.KEta => Some (Fmt.CHDur (fst (dur (Keys.o_eta o))) (snd (dur (Keys.o_eta o))) true, [])
+  | Keys.KDurationPrecise => Some (Fmt.CFDur (fst (dur (Keys.o_duration o))) (snd (dur (Keys.o_duration o))), [])
+  | Keys.KDuration => Some (Fmt.CHDur (fst (dur (Keys.o_duration o))) (snd (dur (Keys.o_duration o))) true, [])
+  | Keys.KWideBar | Keys.KBar | Keys.KSpinner | Keys.KWideMsg | Keys.KMsg | Keys.KPrefix
+  | Keys.KPos | Keys.KLen | Keys.KPercent | Keys.KPercentPrecise => None
+  end.
 
-Definition formatter_call (sn : snapshot) (tm : times) (key : list N) (width : option N)
-  : option Fmt.fcase :=
-  let pos := sn_pos sn in
-  let len := match sn_len sn with Some l => l | None => pos end in            (* :247 unwrap_or(pos) *)
-  if key_is key KeyNames.human_pos then Some (Fmt.CCount pos)                  (* :287-289 HumanCount *)
-  else if key_is key KeyNames.human_len then Some (Fmt.CCount len)             (* :291-293 *)
-  else if key_is key KeyNames.bytes then Some (Fmt.CBytes 0 pos)               (* :300 HumanBytes *)
-  else if key_is key KeyNames.total_bytes then Some (Fmt.CBytes 0 len)         (* :301-303 *)
-  else if key_is key KeyNames.decimal_bytes then Some (Fmt.CBytes 1 pos)       (* :304-306 DecimalBytes *)
-  else if key_is key KeyNames.decimal_total_bytes then Some (Fmt.CBytes 1 len) (* :307-309 *)
-  else if key_is key KeyNames.binary_bytes then Some (Fmt.CBytes 2 pos)        (* :310-312 BinaryBytes *)
-  else if key_is key KeyNames.binary_total_bytes then Some (Fmt.CBytes 2 len)  (* :313-315 *)
-  else if key_is key KeyNames.elapsed_precise then                             (* :316-318 FormattedDuration *)
-    Some (Fmt.CFDur (fst (tm_elapsed tm)) (snd (tm_elapsed tm)))
-  else if key_is key KeyNames.elapsed then                                     (* :319-321 {:#} HumanDuration *)
-    Some (Fmt.CHDur (fst (tm_elapsed tm)) (snd (tm_elapsed tm)) true)
-  else if key_is key KeyNames.per_sec then Some (Fmt.CFloat width (tm_per_sec tm))   (* :322-337 HumanFloatCount, {:.W} *)
-  else if key_is key KeyNames.bytes_per_sec then Some (Fmt.CBytes 0 (tm_per_sec_u64 tm))          (* :338-340 *)
-  else if key_is key KeyNames.decimal_bytes_per_sec then Some (Fmt.CBytes 1 (tm_per_sec_u64 tm))  (* :341-346 *)
-  else if key_is key KeyNames.binary_bytes_per_sec then Some (Fmt.CBytes 2 (tm_per_sec_u64 tm))   (* :347-352 *)
-  else if key_is key KeyNames.eta_precise then Some (Fmt.CFDur (fst (tm_eta tm)) (snd (tm_eta tm)))       (* :353-355 *)
-  else if key_is key KeyNames.eta then Some (Fmt.CHDur (fst (tm_eta tm)) (snd (tm_eta tm)) true)          (* :356-358 *)
-  else if key_is key KeyNames.duration_precise then                            (* :359-361 *)
-    Some (Fmt.CFDur (fst (tm_duration tm)) (snd (tm_duration tm)))
-  else if key_is key KeyNames.duration then                                    (* :362-364 *)
-    Some (Fmt.CHDur (fst (tm_duration tm)) (snd (tm_duration tm)) true)
-  else None.
+(* two formatter records that differ at most in the format.rs formatters *)
+Definition same_core_formatters (F G : Keys.formatters) : Prop :=
+  Keys.f_percent F = Keys.f_percent G /\ Keys.f_bar F = Keys.f_bar G.
 
 (** ** one frame on the terminal (draw_target.rs) – all lines are LineType::Bar *)
 Definition sat_addu (a b : N) : N := N.min USIZE_MAX (a + b).
